@@ -9,7 +9,9 @@ BOUND = ("networks with <= 6 variables (exhaustive 1-variable, sampled 2-variabl
          "(incl. 10 source variables with the default configuration, the D1/D2/D8/D11 inputs); every node of the diagram reached by a seeded prefix "
          "(none / root expanded / full bfs / <= 2 random plain calls / block / scc); all 4 combinations of greedy_asp_minification x "
          "simulation_minification; retained_set_optimization_threshold, attractor_candidates_limit in {0,1,2,3,5,default}, minimum_simulation_budget in "
-         "{0,1,default}, nfvs_size_threshold in {0,1,default}")
+         "{0,1,default}, nfvs_size_threshold in {0,1,default}; plus networks with 2-3 independent negative cycles (all in the NFVS) and memory variables: "
+         "retained_set_optimization_threshold in {0,1,2,3} x greedy on/off x simulation on/off (all 16 combinations on the fixed instances, seeded picks on "
+         "the generated ones), optionally with attractor_candidates_limit in {1,2,3}, on the fresh root and after a full bfs")
 RULE = "non-trivial = some node in the case owns an attractor (inside it, inside none of its successors) and the call did not raise a limit error for it"
 CASE_TIMEOUT = 60.0
 
@@ -30,7 +32,26 @@ def config_variants(rng):
     return cfg
 
 
+def shape_cases(seed, tier):
+    """Several independent negative cycles x small thresholds x greedy on/off (the retained-set regeneration loop runs several times)."""
+    for k, (name, bnet) in enumerate(families.neg_cycle_nets(seed, tier)):
+        rng = random.Random(f"{seed}-{name}-c08-neg")
+        if name in families.NEG_CYCLES:
+            combos = [(thr, g, sim) for thr in (0, 1, 2, 3) for g in (True, False) for sim in (True, False)]
+        else:
+            combos = [(rng.choice([0, 1, 2, 3]), g, rng.random() < 0.5) for g in (True, False)]
+        for thr, g, sim in combos:
+            cfg = {"retained_set_optimization_threshold": thr}
+            if name not in families.NEG_CYCLES and rng.random() < 0.25:
+                cfg["attractor_candidates_limit"] = rng.choice([1, 2, 3])
+            yield {"net": name, "bnet": bnet, "prefix": [] if rng.random() < 0.7 else [["bfs", None, None, None]], "config": cfg, "greedy": g, "sim": sim}
+
+
 def cases(seed, tier):
+    yield from families.interleave((shape_cases(seed, tier), 1), (general_cases(seed, tier), 3))
+
+
+def general_cases(seed, tier):
     # defect-shaped first
     yield {"net": "D1_sources10", "bnet": families.HAND["D1_sources10"], "prefix": [], "config": {}, "greedy": True, "sim": True}
     for k in (2, 3):
